@@ -657,6 +657,9 @@ func (e *Eval) objField(o *obj, name string, args []tval) (tval, error) {
 				if e.decideKey("explicit-constraint:"+o.id, "type parameter "+o.id+" has an explicit basic/union constraint") {
 					return &obj{kind: "constraint", id: o.id, ii: o.ii, pi: o.pi}, nil
 				}
+				// not a single explicit type: either an ordinary (method-set) interface, which is a valid
+				// type argument, or a constraint interface such as comparable, which is not
+				e.decideKey("comparable-constraint:"+o.id, "the constraint of type parameter "+o.id+" is (or embeds) comparable")
 				return Nil{}, nil
 			}
 		}
